@@ -59,7 +59,13 @@ def make_job(ws: Path, j):
     if j["failed"]:
         (d / f"{s}.failed").write_text("1")
     if j["pid"]:
-        (d / f"{s}.pid").write_text(json.dumps({"type": "local", "pid": live_pid() if j["alive"] else dead_pid()}))
+        text = json.dumps({"type": "local", "pid": live_pid() if j["alive"] else dead_pid()})
+        # the scheduler starts the process, then opens the pid file and writes it: until the file is closed it is
+        # empty or cut (for ever if the scheduler is killed there) while the job process runs
+        kind = j.get("pidfile", "ok")
+        (d / f"{s}.pid").write_text("" if kind == "empty" else text[:len(text) // 2] if kind == "truncated" else text)
+        if j["alive"]:
+            live_pid()
     return d
 
 
@@ -128,8 +134,13 @@ def run_filter(ws: Path, c):
         except Exception as e:  # noqa
             return dict(v=None, exc=type(e).__name__)
 
-    st = JobInformation(d.resolve(), scriptname(c["job"]["task"])).state
-    return dict(state=None if st is None else st.name, whole=one(c["text"]), atoms=[one(t) for t in c["atom_texts"]])
+    st, st_exc = None, None
+    try:
+        st = JobInformation(d.resolve(), scriptname(c["job"]["task"])).state
+    except Exception as e:  # noqa
+        st_exc = type(e).__name__
+    return dict(state=None if st is None else st.name, state_exc=st_exc, whole=one(c["text"]),
+                atoms=[one(t) for t in c["atom_texts"]])
 
 
 def run_near(ws: Path, c):
